@@ -2146,3 +2146,25 @@ mod tests {
         }
     }
 }
+
+#[cfg(enet4_dicom_rs_verif)]
+impl<A, N> ServerAssociationOptions<'_, A, N>
+where
+    A: AccessControl,
+    N: Negotiation,
+{
+    /// Process an A-ASSOCIATE-RQ PDU
+    /// (verification hook, same as the private `process_a_association_rq`
+    /// with the negotiated options converted to a public type).
+    #[allow(clippy::result_large_err)]
+    pub fn process_a_association_rq_for_verif(
+        &self,
+        msg: Pdu,
+    ) -> std::result::Result<
+        (Pdu, crate::association::NegotiatedOptionsForVerif, String),
+        (Pdu, Error),
+    > {
+        self.process_a_association_rq(msg)
+            .map(|(pdu, options, calling_ae_title)| (pdu, options.into(), calling_ae_title))
+    }
+}
